@@ -24,14 +24,21 @@ sys.path.insert(0, %r)
 warnings.simplefilter('ignore')
 import numpy as np, numdifftools as nd
 from numdifftools import finite_difference as fdm
+def _rc(mod):
+    c = getattr(mod, 'FD_RULES', None)
+    if isinstance(c, dict):
+        return c
+    cands = [v for k, v in vars(mod).items() if isinstance(v, dict) and not k.startswith('__') and all(isinstance(kk, tuple) for kk in v)]
+    return cands[0] if len(cands) == 1 else {}
+RCW = _rc(fdm)
 FUNCS = {'exp': np.exp, 'sinpoly': lambda t: np.sin(t) + t ** 3, 'rat': lambda t: t * t / (1 + t * t)}
 def hx(v):
     return '%%x' %% struct.unpack('<Q', struct.pack('<d', float(v)))[0]
-INITIAL = {k: np.array(v, copy=True) for k, v in fdm.FD_RULES.items()}    # the cache as a fresh interpreter has it
+INITIAL = {k: np.array(v, copy=True) for k, v in RCW.items()}    # the cache as a fresh interpreter has it
 for line in sys.stdin:
     req = json.loads(line)
-    fdm.FD_RULES.clear()
-    fdm.FD_RULES.update({k: np.array(v, copy=True) for k, v in INITIAL.items()})
+    RCW.clear()
+    RCW.update({k: np.array(v, copy=True) for k, v in INITIAL.items()})
     kw = {'step_ratio': req['step_ratio']} if req.get('step_ratio') else {}
     d = getattr(nd, req['cls'])(FUNCS[req['f']], n=req['n'], method=req['method'], order=req['order'], full_output=True, **kw) if req['cls'] == 'Derivative' \
         else getattr(nd, req['cls'])(FUNCS[req['f']], method=req['method'], order=req['order'], full_output=True, **kw)
@@ -63,6 +70,8 @@ def make_exact(h):
 def run(ctx):
     import numdifftools as nd
     from numdifftools import finite_difference as fdm
+    from harness.common import rule_cache
+    RC = rule_cache(fdm)
     translator_obligations(ctx, ['LogRule._parity', 'LogRule.num_terms', 'LogRule.method_order', 'LogRule.richardson_step', 'StepGen.default_step_ratio'])
     lean_obligations(ctx, MODULE, THEOREMS)
     rng = ctx.rng
@@ -72,7 +81,7 @@ def run(ctx):
     eng = ctx.engine('history')
     requests, results, pending = [], [], []
     for seq_i in range(ctx.budget(60, 600)):
-        fdm.FD_RULES.clear()
+        RC.clear()
         objs, toks, impl_trace = [], [], []
         length = rng.randint(3, 12)
         # every third sequence is "paired": its objects share (method, n, order) and differ only in the step ratio, and nothing but
@@ -103,7 +112,7 @@ def run(ctx):
                 # the intended configuration is tracked here, never read back from the object
                 objs.append({'d': d, 'f': fname, 'sr': sr, 'n': n, 'method': m, 'order': o})
                 toks.append('C,%s,%d,%d,1,%s' % (m, n, o, '-' if sr is None else q2s(Fraction(make_exact(sr)))))
-                impl_trace.append((sorted(fdm.FD_RULES), None))
+                impl_trace.append((sorted(RC), None))
                 continue
             if kind == 'C':
                 kind = 'K'
@@ -121,11 +130,11 @@ def run(ctx):
                         if not (cfg['method'] == 'multicomplex' and cfg['n'] > 2):
                             ctx.violation('a valid configuration reached by attribute assignment was rejected', config=[cfg['method'], cfg['n'], cfg['order']])
                         toks.append('N,%d,%d' % (i, cfg['n']))
-                        impl_trace.append((sorted(fdm.FD_RULES), None))
+                        impl_trace.append((sorted(RC), None))
                         continue
                 st = d.step._state
                 toks.append('K,%d,x%d' % (i, len(toks)))
-                impl_trace.append((sorted(fdm.FD_RULES), (str(st.method), int(st.n), int(st.order))))
+                impl_trace.append((sorted(RC), (str(st.method), int(st.n), int(st.order))))
                 requests.append({'cls': 'Derivative', 'f': objs[i]['f'], 'n': cfg['n'], 'method': cfg['method'], 'order': cfg['order'], 'x': x,
                                  'step_ratio': cfg['sr']})
                 results.append(pack(val, info))
@@ -139,13 +148,13 @@ def run(ctx):
                 d.n = newn
                 cfg['n'] = newn
                 toks.append('N,%d,%d' % (i, newn))
-                impl_trace.append((sorted(fdm.FD_RULES), None))
+                impl_trace.append((sorted(RC), None))
             elif kind == 'O':
                 newo = rng.randint(1, 6)
                 d.order = newo
                 cfg['order'] = newo
                 toks.append('O,%d,%d' % (i, newo))
-                impl_trace.append((sorted(fdm.FD_RULES), None))
+                impl_trace.append((sorted(RC), None))
             elif kind == 'M':
                 # only real-step methods are interchangeable (the generator class is chosen at construction)
                 if cfg['method'] in REAL:
@@ -160,7 +169,7 @@ def run(ctx):
                     toks.append('M,%d,%s' % (i, newm))
                 else:
                     toks.append('O,%d,%d' % (i, cfg['order']))
-                impl_trace.append((sorted(fdm.FD_RULES), None))
+                impl_trace.append((sorted(RC), None))
             elif kind == 'S':
                 j = rng.randrange(len(objs))
                 same_family = (objs[j]['method'] in REAL) == (cfg['method'] in REAL)
@@ -170,9 +179,9 @@ def run(ctx):
                     toks.append('S,%d,%d' % (i, j))
                 else:
                     toks.append('O,%d,%d' % (i, cfg['order']))
-                impl_trace.append((sorted(fdm.FD_RULES), None))
+                impl_trace.append((sorted(RC), None))
             else:
-                fdm.FD_RULES.clear()
+                RC.clear()
                 toks.append('X')
                 impl_trace.append(([], None))
         pending.append((toks, impl_trace))
@@ -226,13 +235,13 @@ def run(ctx):
                      'x': [rng.uniform(0.3, 3) for _ in range(3)]})
     seq_results = []
     for c in cfgs:
-        fdm.FD_RULES.clear()
+        RC.clear()
         with warnings.catch_warnings():
             warnings.simplefilter('ignore')
             d = nd.Derivative(FUNCS[c['f']], n=c['n'], method=c['method'], order=c['order'], full_output=True)
             seq_results.append(pack(*d(np.asarray(c['x']))))
     for rep_i in range(ctx.budget(3, 20)):
-        fdm.FD_RULES.clear()
+        RC.clear()
         objs = [nd.Derivative(FUNCS[c['f']], n=c['n'], method=c['method'], order=c['order'], full_output=True) for c in cfgs]
         out = [None] * nthreads
         barrier = threading.Barrier(nthreads)
@@ -253,7 +262,7 @@ def run(ctx):
                 ctx.violation('a result computed while other objects were used in other threads differs from the sequential result',
                               config=cfgs[k], concurrent=out[k], sequential=seq_results[k])
                 break
-    fdm.FD_RULES.clear()
+    RC.clear()
     ctx.assumptions.append('thread interleavings are modelled at the granularity of the interpreter lock (atomic dict get / set); '
                            'numpy / LAPACK internals are outside the model; warnings.catch_warnings in dea3 is process-global (affects warnings only)')
 
